@@ -13,6 +13,7 @@ Sub-checks (the `check` field of a violation):
   mvn-rank        the distribution's rank and log_pdet properties
   mvn-null        invariance to null-space shifts
   mvn-ctor        agreement of all thirteen constructor variants
+  (mvn-* also for d = 30 and 60 with I / RW1: pseudo-determinants outside the float32 range)
   mvn-sample      linear map of the sampler reconstructed from scripted unit normals:
                   S S^T = pinv(P), N^T S = 0; real-key samples lie in the range space
 """
@@ -31,7 +32,7 @@ RULE = (
     "full products: (dimension x penalty {I, SPD, RW1, RW2, zero-block x2, stacked batch of all}) x "
     "(variance {0.1,1,7} or batched) x (loc {0, vector} or batched) x batch layouts {(), (2,), (2,3), "
     "mixed broadcasting} x 13 constructor variants (precision / from_penalty / from_penalty_smooth, "
-    "rank and log-pdet supplied or not; precision with explicit tol) x lattice {-1,0,2}^d plus null-space shifts; sampler: "
+    "rank and log-pdet supplied or not; precision with explicit tol; plus d in {30, 60} with I / RW1, whose pseudo-determinants leave the float32 range, at a few lattice-valued points) x lattice {-1,0,2}^d plus null-space shifts; sampler: "
     "scripted normals z=e_i for every i, sample shapes (), (2,), (2,2); algebraic sigmoid: 41-point "
     "x and y lattices in float32 and float64; copula: 8 dependences (+None) x 7x7 unit-square "
     "lattice x validate_args x batch shapes, marginals on a 198-node composite Gauss-Legendre rule. "
@@ -48,6 +49,7 @@ ASSUMPTIONS = [
 ]
 
 VARS = (0.1, 1.0, 7.0)
+HIGH_DIMS = (30, 60)  # pseudo-determinants outside the float32 range (5^60, 100^-30, ...)
 LOCVEC = (0.5, -1.0, 2.0, -0.25, 1.5, -0.75)
 RHOS = (0.0, -0.5, 0.42, -0.1, 0.1, 0.9, -0.95, 0.99)  # simplest first; both halves contain both signs
 
@@ -71,6 +73,8 @@ def bounds(tier):
         "variances": list(VARS) if tier == "quick" else [0.01] + list(VARS) + [100.0],
         "batch_shapes": [[], [2], [2, 3], "mixed (3,)x(2,1)"],
         "constructor_variants": 13,
+        "high_dimensional_family": {"d": list(HIGH_DIMS), "penalties": ["I", "RW1"], "variances": [0.2, 1.0, 100.0] if tier == "quick" else [0.01, 0.2, 1.0, 7.0, 100.0],
+                                    "constructor_variants": 12, "points": "0, two {-1,0,2}-patterns, their null-space shifts"},
         "lattice_values": [-1.0, 0.0, 2.0],
         "sample_shapes": [[], [2], [2, 2]],
         "asig_lattice_points": 41,
@@ -100,6 +104,8 @@ def units(tier, seed):
                     us.append({"kind": "mvn", "d": d, "pen": pen, "vars": [v]})
             else:
                 us.append({"kind": "mvn", "d": d, "pen": pen, "vars": _vars(tier) + ["batch"]})
+    for d in HIGH_DIMS:
+        us.append({"kind": "mvn-highdim", "d": d, "vars": [0.2, 1.0, 100.0] if tier == "quick" else [0.01, 0.2, 1.0, 7.0, 100.0]})
     for d in _dims(tier):
         for pen in ref.penalties(d) + ["batch"]:
             us.append({"kind": "mvn-sample", "d": d, "pen": pen, "vars": _vars(tier), "keys": sorted({0, 1, 1000 + seed})})
@@ -401,7 +407,7 @@ def build_inputs(d, penspec, varspec, locspec, shapes, varlist):
         var = np.array([varlist[(2 * k + 1) % L] if L % 2 else varlist[k % L] for k in range(n)]).reshape(Bv)
     else:
         var = np.array(float(varspec))
-    vec = np.array(LOCVEC[:d])
+    vec = np.resize(np.array(LOCVEC), d)  # LOCVEC[:d] for d <= 6, tiled beyond
     if Bl:
         n = int(np.prod(Bl))
         loc = np.stack([vec * (1.0 + 0.5 * k) - 0.25 * k for k in range(n)]).reshape(Bl + (d,))
@@ -719,6 +725,128 @@ def run_mvn(unit, res):
                              f"[{cn}] d={d} pen={inp['pen_names']} var={v}: log_prob({Xr[i[0]].tolist()}) = {lp[i]!r}, range-space density {want[i]!r}")
 
 
+def run_mvn_highdim(unit, res):
+    """
+    d = 30 / 60, penalties I and RW1: the pseudo-determinant of the precision leaves the
+    float32 range (5^60 ~ 1e42, 100^-30 = 1e-60) while every eigenvalue is harmless, so
+    log_pdet must be accumulated in log space. Twelve constructor variants (no explicit
+    tol), log_prob at a few points built from the lattice values, rank, log_pdet,
+    null-space shifts, constructor agreement; precision / from_penalty also under jit.
+    """
+    import jax
+    import jax.numpy as jnp
+
+    from liesel.distributions.mvn_degen import MultivariateNormalDegenerate as M
+
+    rec = Recorder(res)
+    d = unit["d"]
+    shapes = {"pen": (), "var": (), "loc": ()}
+    B = ()
+    pats = [np.zeros(d), np.resize(np.array([-1.0, 0.0, 2.0]), d), np.resize(np.array([2.0, -1.0, -1.0, 0.0, 2.0, 0.0, -1.0]), d)]
+    first = True
+    for penname in ("I", "RW1"):
+        for v in unit["vars"]:
+            for ls in ("zero", "vec"):
+                inp = prepare(d, penname, v, ls, shapes, list(unit["vars"]), jnp)
+                N = inp["sp"][()]["null"]
+                X = list(pats)
+                shifts = []
+                for j in range(N.shape[1]):
+                    for i in range(len(pats)):
+                        X.append(pats[i] + 3.0 * np.sqrt(d) * N[:, j])
+                        shifts.append((i, len(X) - 1))
+                X32 = f32(np.stack(X))
+                Xr = f64(X32)
+                xin = jnp.asarray(X32)
+                case0 = {"d": d, "pen": [penname], "var": float(np.float32(v)), "loc": ls, "layout": "highdim"}
+                rc = rank_class(int(inp["ranks"]), d)
+                got_all = {}
+                scale = None
+                for ctor, gr, gl in CTORS:
+                    if ctor == "prectol":
+                        continue
+                    cn = ctor_name(ctor, gr, gl)
+                    case = {**case0, "ctor": cn}
+                    tag = f"{cn}:{rc}:highdim"
+                    want, scale = ref_grid_mvn(Xr, inp, ctor, B)
+                    spP = ref.spectral(inp["P"][ctor][()])
+                    with jax.disable_jit():
+                        ok, dist = call(rec, "mvn-logprob", f"construct-{tag}", case, lambda: make_dist(M, jnp, ctor, gr, gl, inp))
+                        res.transitions += 1
+                        if not ok:
+                            continue
+                        ok, r = call(rec, "mvn-logprob", tag, case, lambda: (f64(dist.log_prob(xin)), np.asarray(dist.rank), np.asarray(dist.log_pdet, dtype=np.float64)))
+                        res.transitions += 1
+                        if not ok:
+                            continue
+                        lp, rgot, lgot = r
+                        explained = False
+                        if ctor == "prec" and not gr:
+                            noisy, cnt, ev = noise_explained(dist, inp, ctor, B, d, strict=True)
+                            if noisy[()] and int(rgot) == cnt[()]:
+                                explained = True
+                                rec.fail("mvn-rank", f"null-eigenvalue-noise-above-tol:{cn}", {**case, "eigenvalues_float32": ev[()][:4].tolist()},
+                                         f"[{cn}] d={d} pen={penname} var={v}: rank {int(rgot)} instead of {spP['rank']}: float32 eigenvalue noise above the absolute tolerance 1e-6")
+                    res.states += want.size
+                    res.executions += 1
+                    if lp.shape != want.shape or np.shape(rgot) != () or np.shape(lgot) != ():
+                        rec.fail("mvn-logprob", f"shape-{tag}", case, f"log_prob shape {lp.shape}, rank shape {np.shape(rgot)}, log_pdet shape {np.shape(lgot)}")
+                        continue
+                    if explained:
+                        continue
+                    res.outcome("mvn-highdim", cn, rc, "log_pdet>88" if spP["log_pdet"] > 88.7 else "log_pdet<-103" if spP["log_pdet"] < -103.3 else "log_pdet-in-f32-range")
+                    if first:
+                        res.note([case, lp, float(lgot)])
+                    if int(rgot) != spP["rank"]:
+                        rec.fail("mvn-rank", f"rank-{tag}", case, f"[{cn}] d={d} pen={penname} var={v}: rank {int(rgot)} != {spP['rank']}")
+                    if not abs(float(lgot) - spP["log_pdet"]) <= 2 * MVN_RTOL * (1 + abs(spP["log_pdet"]) + d):
+                        rec.fail("mvn-rank", f"log_pdet-{tag}", case,
+                                 f"[{cn}] d={d} pen={penname} var={v}: log_pdet {float(lgot)!r} != {spP['log_pdet']!r} (the pseudo-determinant itself is {'outside' if abs(spP['log_pdet']) > 88 else 'inside'} the float32 range)")
+                    err = np.abs(lp - want) / scale
+                    bad = ~(err <= MVN_RTOL)
+                    if np.any(bad):
+                        i = int(np.argmax(bad))
+                        rec.fail("mvn-logprob", tag, {**case, "point": i, "x_head": Xr[i][:7].tolist()},
+                                 f"MultivariateNormalDegenerate[{cn}] d={d} pen={penname} var={v} loc={ls}: log_prob(point {i}: {Xr[i][:7].tolist()}...) = {lp[i]!r}, range-space density {want[i]!r} (tolerance {MVN_RTOL * scale[i]:.2g})")
+                    for a, b in shifts:
+                        if not abs(lp[a] - lp[b]) <= 2 * MVN_RTOL * max(scale[a], scale[b]):
+                            rec.fail("mvn-null", tag, {**case, "point": a}, f"[{cn}] d={d} pen={penname}: log_prob changes by {abs(lp[a] - lp[b]):.4g} under a null-space shift of point {a}")
+                    got_all[cn] = lp
+                names = sorted(got_all)
+                for a, b in itertools.combinations(names, 2):
+                    diff = np.abs(got_all[a] - got_all[b])
+                    bad = ~(diff <= 2 * MVN_RTOL * scale)
+                    if np.any(bad):
+                        i = int(np.argmax(bad))
+                        rec.fail("mvn-ctor", f"{a}-vs-{b}:highdim", {**case0, "point": i}, f"constructors {a} and {b} disagree by {diff[i]!r} at point {i} for d={d} pen={penname} var={v}")
+                if first:
+                    res.sample({**case0, "points": len(Xr), "constructors": len(names), "log_pdet_ref": ref.spectral(inp["P"]["prec"][()])["log_pdet"]})
+                first = False
+                # jit: precision and from_penalty without supplied rank
+                if ls == "vec":
+                    for ctor in ("prec", "pen"):
+                        cn = ctor_name(ctor, False, False) + ":jit"
+                        fn = jax.jit((lambda loc, prec, x: M(loc=loc, prec=prec).log_prob(x)) if ctor == "prec" else (lambda loc, var, pen, x: M.from_penalty(loc=loc, var=var, pen=pen).log_prob(x)))
+                        args = (jnp.asarray(inp["loc32"]), jnp.asarray(inp["prec32"]), xin) if ctor == "prec" else (jnp.asarray(inp["loc32"]), jnp.asarray(inp["var32"]), jnp.asarray(inp["pen32"]), xin)
+                        case = {**case0, "ctor": cn}
+                        ok, lp = call(rec, "mvn-logprob", f"{cn}:highdim", case, lambda: f64(fn(*args)))
+                        res.transitions += 1
+                        if not ok:
+                            continue
+                        want, scale = ref_grid_mvn(Xr, inp, ctor, B)
+                        res.states += want.size
+                        res.executions += 1
+                        if ctor == "prec":
+                            with jax.disable_jit():
+                                noisy, _, _ = noise_explained(make_dist(M, jnp, ctor, False, False, inp), inp, ctor, B, d, strict=True)
+                            if noisy[()]:
+                                continue
+                        bad = ~(np.abs(lp - want) / scale <= MVN_RTOL) if lp.shape == want.shape else np.array([True])
+                        if np.any(bad):
+                            i = int(np.argmax(bad))
+                            rec.fail("mvn-logprob", f"{cn}:{rc}:highdim", {**case, "point": i}, f"[{cn}] d={d} pen={penname} var={v}: log_prob(point {i}) = {lp[i] if lp.shape == want.shape else lp.shape!r}, range-space density {want[i] if lp.shape == want.shape else want.shape!r}")
+
+
 # ---------------------------------------------------------------------------------
 # sampler
 # ---------------------------------------------------------------------------------
@@ -886,6 +1014,8 @@ def run_unit(unit):
         run_copula(unit, res)
     elif kind == "mvn":
         run_mvn(unit, res)
+    elif kind == "mvn-highdim":
+        run_mvn_highdim(unit, res)
     elif kind == "mvn-sample":
         run_mvn_sample(unit, res)
     else:
